@@ -44,6 +44,8 @@ type FuncContract struct {
 	Core         bool
 	Trusted      bool // extern / trusted: body not checked
 	TrustedFrame bool // the assigns clause is assumed, not checked against the body (listed)
+	TrustedExtra bool // this block only adds trusted facts for callers of a function checked elsewhere
+	Extra        *FuncContract
 	Pure         bool
 	Concurrent   bool // concurrent_entry
 	Replay       string
@@ -76,6 +78,8 @@ type TypeDecl struct {
 	Invs       []Clause
 	Immutable  []string
 	Stable     []string // not changed by other threads once the object is shared (assumption; writes restricted)
+	NonnilElems bool
+	NonnilElemsField string
 	Frozen     []string // like stable, and no call changes it on an object that existed before the call: written only by the declaring package while the object is under construction (writers checked)
 	ValsNonnil []string // containers (maps, slices) in these fields hold no nil values
 	Writers    []WritersDecl
@@ -101,6 +105,7 @@ type Contracts struct {
 	Funcs   map[string]*FuncContract
 	Ifaces  map[string]*FuncContract // key: pkg.Iface.method
 	FuncTypes map[string]*FuncContract // key: pkg.FuncType
+	pendingExtras []*FuncContract
 	Specs   map[string]*SpecFunc
 	Types   map[string]*TypeDecl // key pkg.Type
 	Axioms  []*Axiom
@@ -235,7 +240,19 @@ func (cs *Contracts) LoadFile(path string) {
 				cur.Key = key
 				cs.Ifaces[key] = cur
 			} else {
-				if prev, dup := cs.Funcs[key]; dup && prev.Pkg == cur.Pkg && word == "func" && !prev.Trusted {
+				if prev, dup := cs.Funcs[key]; dup && word == "extern" && !prev.Trusted {
+					// an extern block for a function that is under contract in its own package: its clauses are
+					// additional trusted facts for callers (listed), the body is checked against the func block
+					cur.TrustedExtra = true
+					prev.Extra = cur
+					cs.pendingExtras = append(cs.pendingExtras, prev)
+				} else if dup && word == "func" && prev.Trusted && prev.Pkg != cur.Pkg {
+					cur.Extra = prev
+					prev.TrustedExtra = true
+					prev.Trusted = false
+					cs.Funcs[key] = cur
+					cs.pendingExtras = append(cs.pendingExtras, cur)
+				} else if prev, dup := cs.Funcs[key]; dup && prev.Pkg == cur.Pkg && word == "func" && !prev.Trusted {
 					// a later block for the same function adds clauses (one block per property is easier to read)
 					cur = prev
 				} else if dup {
@@ -311,6 +328,10 @@ func (cs *Contracts) LoadFile(path string) {
 				for _, f := range strings.Split(parts[2], ",") {
 					td.Stable = append(td.Stable, strings.TrimSpace(f))
 				}
+			case "nonnil-elems":
+				// slices of pointers to this type never hold nil (checked where elements are appended)
+				td.NonnilElems = true
+				td.NonnilElemsField = strings.TrimSpace(parts[2])
 			case "frozen":
 				for _, f := range strings.Split(parts[2], ",") {
 					td.Stable = append(td.Stable, strings.TrimSpace(f))
@@ -574,6 +595,14 @@ func LoadContracts(repo, specDir string) *Contracts {
 	sort.Strings(gl)
 	for _, f := range gl {
 		cs.LoadFile(f)
+	}
+	// a function checked in its own package keeps the (trusted) frame another package declared for it
+	for _, fc := range cs.pendingExtras {
+		if x := fc.Extra; x != nil {
+			if x.TrustedFrame && !fc.HasAssigns {
+				fc.TrustedFrame, fc.HasAssigns, fc.Assigns = true, x.HasAssigns, x.Assigns
+			}
+		}
 	}
 	return cs
 }
